@@ -36,6 +36,9 @@ def main():
         res = {'name': name, 'property': prop, 'tier': tier}
         try:
             rc, out = sh('git -C %s apply %s' % (wt, os.path.join(d, 'patch.diff')))
+            if rc != 0:      # the tree has moved on since the change was written (later fix: commits): try a 3-way merge
+                rc, out = sh('git -C %s apply -3 %s' % (wt, os.path.join(d, 'patch.diff')))
+                res['applied_3way'] = rc == 0
             res['patch_applies'] = rc == 0
             if rc != 0:
                 res['error'] = out[-500:]
